@@ -15,7 +15,8 @@ RULE = ("every registered prefix (plus none) x named unit x exponent in {-3..3}\
         "distinct = the rendered string (spellings by token skeleton); non-trivial = the string has a prefix, an "
         "exponent or >= 2 terms"
         " Plus everyday ratio spellings (kb/B, km/h...), every whitespace character of the grammar, staged imports with failing parses right before each import and a read-back of the newly declared symbols right after, and (thorough) a process that builds 330 000 other units before reading the units in use back."
-        " Prefixes the program registers itself (symbols of 2-5 characters) go through the table like shipped ones.")
+        " Prefixes the program registers itself (symbols of 2-5 characters) go through the table like shipped ones."
+        " Units that came out of roots, and prefixes on whole compounds whose first factor cannot take them, are in the table; the known-finding classifier states the rendering rule itself.")
 ASSUMPTIONS = [
     "the judge of 'same unit' is the declaration-log size oracle and the model dimension, not in_unit",
     "a spelling is a string of the grammar's language: registered names with characters outside the SYMBOL terminal "
